@@ -118,11 +118,9 @@ theorem scalarMult_ops (g : GroupOps C) (sb : Nat → UInt8) (p q d : C) (a0 : N
   exact k1ScalarMult_pure g (sb 0) ((List.range' 1 31).map sb) q
 
 theorem scalarMult_facts :
-    G.scalarMult.inputs = ["p", "q", "s"] ∧ G.scalarMult.outputs = ["p"]
+    G.scalarMult.inputs = ["r", "p0", "a0"] ∧ G.scalarMult.outputs = ["r"]
     ∧ G.scalarMult.guards = [] ∧ G.scalarMult.paramWrites = [] ∧ G.scalarMult.hazards = []
-    ∧ G.scalarMult.facts = [("opaque s", "normalizeScalar(k)"),
-        ("index-checked", "s in [0, 0] of 32"), ("index-checked", "s in [1, 31] of 32"),
-        ("loop 1", "from 1 below 32 step 1")] := by
+    ∧ G.scalarMult.facts = [("opaque a0", "normalizeScalar(p1)"), ("index-checked", "a0 in [0, 0] of 32"), ("index-checked", "a0 in [1, 31] of 32"), ("loop 1", "from 1 below 32 step 1")] := by
   ptops_decide "C15MulOps.scalarMult_facts"
 
 end C15MulOps
